@@ -2661,6 +2661,13 @@ impl Server {
                             if let RespFrame::BulkString(Some(seconds_bytes)) = &parts[i + 1] {
                                 if let Ok(seconds_str) = String::from_utf8(seconds_bytes.as_ref().clone()) {
                                     if let Ok(seconds) = seconds_str.parse::<u64>() {
+                                        // a second expiry option is a syntax error, a zero one an invalid time
+                                        if expiration.is_some() {
+                                            return Ok(RespFrame::error("ERR syntax error"));
+                                        }
+                                        if seconds == 0 {
+                                            return Ok(RespFrame::error("ERR invalid expire time in 'set' command"));
+                                        }
                                         expiration = Some(Duration::from_secs(seconds));
                                         i += 2;
                                         continue;
@@ -2676,6 +2683,12 @@ impl Server {
                             if let RespFrame::BulkString(Some(millis_bytes)) = &parts[i + 1] {
                                 if let Ok(millis_str) = String::from_utf8(millis_bytes.as_ref().clone()) {
                                     if let Ok(millis) = millis_str.parse::<u64>() {
+                                        if expiration.is_some() {
+                                            return Ok(RespFrame::error("ERR syntax error"));
+                                        }
+                                        if millis == 0 {
+                                            return Ok(RespFrame::error("ERR invalid expire time in 'set' command"));
+                                        }
                                         expiration = Some(Duration::from_millis(millis));
                                         i += 2;
                                         continue;
@@ -2697,6 +2710,11 @@ impl Server {
                 }
                 _ => return Ok(RespFrame::error("ERR syntax error")),
             }
+        }
+        
+        // NX and XX contradict each other
+        if nx && xx {
+            return Ok(RespFrame::error("ERR syntax error"));
         }
         
         // Handle NX option (only set if key doesn't exist) - use atomic operation
